@@ -229,14 +229,15 @@ func H15_Core() {
 	settle()
 	fl := verif.U64("flags")
 	verif.Assume(fl&^uint64(bpv7.StatusRequestReception|bpv7.StatusRequestForward|bpv7.StatusRequestDelivery|bpv7.StatusRequestDeletion|bpv7.RequestStatusTime) == 0)
-	outcome := verif.Choose("outcome", 7) // 6: the lifetime has run out when the bundle is to be forwarded
+	outcome := verif.Choose("outcome", 8) // 6: the lifetime has run out when the bundle is to be forwarded; 7: the first
+	// transmission fails and the bundle is forwarded by the pending-retry job, from the store
 	if shards := verif.Param("shards", 1); shards > 1 {
 		verif.Assume(outcome%shards == verif.Param("shard", 0))
 	}
 	reportToSelf := verif.Bool("reporttoself")
 	// localSrc: the bundle is submitted by a local application (source is an endpoint of this node) instead of being
 	// received from peer 1; only for the outcomes that involve forwarding
-	localSrc := outcome >= 2 && outcome <= 4 && verif.Bool("localsrc")
+	localSrc := ((outcome >= 2 && outcome <= 4) || outcome == 7) && verif.Bool("localsrc")
 	// the bundle is a fragment: reports name its offset and length
 	isFrag := !localSrc && verif.Bool("fragment")
 	if isFrag {
@@ -265,7 +266,7 @@ func H15_Core() {
 	}
 	blockFlags := bpv7.BlockControlFlags(0)
 	switch outcome {
-	case 3:
+	case 3, 7:
 		p2.fail = true
 		if localSrc {
 			p1.fail = true
@@ -290,6 +291,10 @@ func H15_Core() {
 		settle()
 	} else {
 		inject(p1, b)
+	}
+	if outcome == 7 {
+		p1.fail, p2.fail = false, false
+		time.Sleep(10*time.Second + time.Millisecond) // pending-retry tick: the bundle is loaded from the store
 	}
 	// what happened
 	delivered := len(box.rx) > 0
